@@ -34,13 +34,16 @@ func HarnessC08a() {
 	st := newVStore("s1")
 	st.checkConflicts = true
 	var cache NodeCache
-	if verifBound("CACHE") == 1 {
+	if verifBound("CACHE") >= 1 {
 		cache = &vCache{}
 	}
 	cfg := symConfig(st, cache)
 	cur, err := NewRoot(&CreateRemoteOptions{BranchFactor: bf}).LoadMast(vctx, cfg)
 	verifAssert("C01.new.err", err == nil)
 	md := &symModel{}
+	if n0 := verifBoundOr("N0", 0); n0 > 0 {
+		buildAscending("base", cur, md, n0)
+	}
 	cur, md, _ = applyOps("h", cur, md, cfg, K, 3)
 	r1, err := cur.MakeRoot(vctx)
 	verifAssert("C01.makeroot.err", err == nil)
@@ -71,4 +74,34 @@ func HarnessC08a() {
 	}
 	verifAssert("C08.reencode-same-root", same)
 	verifAssert("C08.reencode-no-new-names", len(st.names) == n0)
+	if verifBound("CACHE") != 1 {
+		return // (CACHE=2: the store-side checks only, on longer histories)
+	}
+	// after a "restart" the cache is empty and fills by loading. One handle modifies a tree loaded
+	// from r1; r1 loaded again through the same cache must still have r1's contents and name.
+	cfg2 := symConfig(st, &vCache{})
+	a, err := r1.LoadMast(vctx, cfg2)
+	verifAssert("C01.load.err", err == nil)
+	if err != nil {
+		return
+	}
+	k, v := verifNondetKey("k"), verifNondetVal("v")
+	verifAssert("C01.insert.err", a.Insert(vctx, symKey{k}, v) == nil)
+	k2, v2 := verifNondetKey("k"), verifNondetVal("v")
+	_ = a.Delete(vctx, symKey{k2}, v2) // may or may not hit
+	b, err := r1.LoadMast(vctx, cfg2)
+	verifAssert("C01.load.err", err == nil)
+	if err != nil {
+		return
+	}
+	ks, vs, ierr := iterAll(b)
+	verifAssert("C01.iter.err", ierr == nil)
+	if ierr == nil {
+		verifAssert("C08.same-root-name-same-contents", seqMatches(ks, vs, md))
+	}
+	r3, err := b.MakeRoot(vctx)
+	verifAssert("C01.makeroot.err", err == nil)
+	if err == nil {
+		verifAssert("C08.unmodified-load-persists-under-the-same-name", sameRoot(r1, r3))
+	}
 }
